@@ -20,12 +20,7 @@ REQUIRED = [P + n for n in [
         "mask_opaque_sound_partial", "solid_value_opaque"]] + [
     "Pixman.Props.C09Gradient." + n for n in [
         "colourAt_opaque", "gradient_opaque_sound_partial", "alpha_one_packs_255", "linear_paints_every_pixel",
-        "conical_paints_every_pixel", "flagged_stops", "linear_gradient_opaque_sound", "conical_gradient_opaque_sound",
-        "radial_gradient_opaque_sound", "affine_setup", "projective_radial_never_flagged"]] + [
-    "Pixman.Props.C09Reduction." + n for n in [
-        "reducible_matrix", "half_position", "bilinear_zero_weights_alpha", "bilinear_half_value_opaque", "reduced_positions",
-        "opaque_values_full", "source_opaque_sound", "mask_opaque_sound"]] + [
-    "Pixman.Lemmas.OpacityFlags.filterK_11", "Pixman.Lemmas.OpacityFlags.flags_11"] + [
+        "conical_paints_every_pixel"]] + [
     "Pixman.Props.C09Headline." + n for n in [
         "decision_op", "looked_up_operator_sound", "looked_up_operator_sound_ca", "presentation_invariance",
         "presentation_invariance_mask", "presentation_invariance_dest"]] + [
@@ -54,7 +49,7 @@ ORULE = ("opacity stream: groups of 1-8 composites (1..12 x 1..6 pixels) present
 
 
 def run(ctx):
-    broken = ctx.lean_obligations("Pixman.Props.C09", REQUIRED, extra_modules=["Pixman.Props.C09Flags", "Pixman.Props.C09Saturate", "Pixman.Props.C09Sound", "Pixman.Props.C09Reduction", "Pixman.Props.C09Gradient", "Pixman.Props.C09Headline", "Pixman.Props.C09Formats"])
+    broken = ctx.lean_obligations("Pixman.Props.C09", REQUIRED, extra_modules=["Pixman.Props.C09Flags", "Pixman.Props.C09Saturate", "Pixman.Props.C09Sound", "Pixman.Props.C09Gradient", "Pixman.Props.C09Headline", "Pixman.Props.C09Formats"])
     quick = ctx.tier == "quick"
     findings = cc.run_streams(ctx, 1, 15000 if quick else 40000, 16 if quick else 64)
     ctx.cov["rule"] = RULE
@@ -76,11 +71,10 @@ def run(ctx):
         "the regenerated promotion block: IS_OPAQUE in the looked-up source/mask word => every value the reference fetcher (C08 nearest / bilinear) "
         "returns for every pixel of the request has alpha 255, and the looked-up operator computes the requested operator's pixel. Hypotheses left: "
         "int32 matrix entries (C type), a non-empty image below analyze_extent's size limit, and that an alpha-less format fetches alpha 255 "
-        "(Presents.pixels; discharged for every packed format of the regenerated list by C09Formats.c10_opaque_pixels from C10). The BILINEAR->NEAREST reduction is covered (C09Reduction: half-integer "
-        "positions, both weights 0, the value is the nearest sample). Gradients: linear / conical / radial-on-affine-rows write every pixel with "
-        "alpha 1 / 0xff (C13 coverage theorems). A radial gradient is flagged only under an affine transform (a7be4c7; projective_radial_never_flagged), so its rows are the "
-        "affine ones and need no extra hypothesis (affine_setup). The float "
-        "pipeline is covered by the lerp theorem over Rat only",
+        "(Presents.pixels; discharged for every packed format of the regenerated list by C09Formats.c10_opaque_pixels from C10). Named gaps: a BILINEAR-family filter promoted through NEAREST_OPAQUE alone (the "
+        "BILINEAR->NEAREST reduction: second tap of weight 0); gradients: the colour is alpha 1 at every walker position (well-formed stops; "
+        "|t| < 32764 for NORMAL/REFLECT), every pixel painted for linear/conical, but 'radial a < 0 => every point has an admissible root' is not "
+        "in C13; the float pipeline is covered by the lerp theorem over Rat only",
         "opacity stream: no alpha maps, clip regions, accessors, indexed/gray/YUV formats, separable-convolution filter, dithering, pixbuf special case; "
         "gradient sources get the decision check and a render-alone oracle only; SATURATE pairs whose replacement leaves the float pipeline are not compared",
     ]
